@@ -205,6 +205,7 @@ def check_case(cid, tier, acc):
                 Q.append(("is_applicable", si, j))
                 Q.append(("apply", si, j))
         Q.append(("gaa", si, None))
+        Q.append(("gaa-peek", si, None))  # the generator is abandoned after its first element
         Q.append(("is_goal", si, None))
         Q.append(("unsat", si, None))
 
@@ -218,6 +219,9 @@ def check_case(cid, tier, acc):
                 return ("v", _res_apply(tr, sim.apply(st, *up_gas[j])))
             if kind == "gaa":
                 return ("v", tuple(sorted((a.name, tuple(str(p) for p in pr)) for a, pr in sim.get_applicable_actions(st))))
+            if kind == "gaa-peek":
+                first = next(iter(sim.get_applicable_actions(st)), None)
+                return ("v", None if first is None else (first[0].name, tuple(str(p) for p in first[1])))
             if kind == "is_goal":
                 return ("v", sim.is_goal(st))
             if kind == "unsat":
@@ -232,7 +236,7 @@ def check_case(cid, tier, acc):
             len(se.stack),
             se._variable_assignments is None,
             se._assignments is None,
-            sim._grounded_actions is None,
+            None if sim._grounded_actions is None else len(sim._grounded_actions),
             sim._initial_state is None,
         )
         if keep_cache:
